@@ -75,6 +75,13 @@ def r5_descend_nofollow(ctx):
             out.append(violated("C03.R5", key, t.where(), "descend open without O_DIRECTORY: %r" % v))
         else:
             out.append(holds("C03.R5", key, t.where(), "O_DIRECTORY open through syscalls::openat (O_NOFOLLOW forced)"))
+    # the wrapper itself: O_NOFOLLOW forced for every flag combination (C05.R2b)
+    from .c05 import r2_forced_flags
+    for i in r2_forced_flags(ctx):
+        if i.rule == "C05.R2b":
+            i.rule = "C03.R5"
+            i.key = "wrapper:" + i.key
+            out.append(i)
     return out
 
 
@@ -195,11 +202,12 @@ def r6_resolution_is_contained(ctx):
     """The dirfds of R1 are only as good as the lookup that produced them: the containment rules of the resolver
     (verification after '..', before completion, fail-closed path comparison, scoped kernel lookups) and the
     byte-fidelity of every path handed to the kernel are obligations of this property too."""
-    from .c02 import r1_verify_after_dotdot, r2_verify_before_complete, r3_check_current_fail_closed, r8_kernel_scoping
+    from .c02 import r1_verify_after_dotdot, r2_verify_before_complete, r3_check_current_fail_closed, r8_kernel_scoping, r9_observed_path
     from .c05 import r8_path_fidelity
     out = []
     for fn, tag in ((r1_verify_after_dotdot, "verify-after-dotdot"), (r2_verify_before_complete, "verify-before-complete"),
-                    (r3_check_current_fail_closed, "check-current"), (r8_kernel_scoping, "kernel-scoping"), (r8_path_fidelity, "path-fidelity")):
+                    (r3_check_current_fail_closed, "check-current"), (r8_kernel_scoping, "kernel-scoping"), (r8_path_fidelity, "path-fidelity"),
+                    (r9_observed_path, "observed-path")):
         for i in fn(ctx):
             i.key = "%s:%s" % (tag, i.key)
             i.rule = "C03.R6"
@@ -207,6 +215,9 @@ def r6_resolution_is_contained(ctx):
     from .c14 import r6_resolve_parent
     for i in r6_resolve_parent(ctx, "C03.R6"):
         out.append(i)
+    # mkdir_all turns its resolved O_PATH handle into a directory descriptor by reopening it
+    from .c09 import reopen_by_descriptor
+    out.extend(reopen_by_descriptor(ctx, "C03.R6"))
     return out
 
 
